@@ -169,6 +169,7 @@ type replica struct {
 	compactTo     uint64 // snapshotState.compactLogTo
 	ssIndex       uint64 // snapshotState.index
 	stopped       bool   // self removal applied (node.requestRemoval)
+	dead          bool   // killed for good (a minority may stay down forever)
 	started       bool
 	incarnation   int
 	lastUpd       uint64 // last index handed to the user SM in this incarnation
@@ -244,6 +245,7 @@ type xcfg struct {
 	Crashes      int
 	Dups         int
 	Drops        int
+	Kills        int // replicas that go down and stay down
 	Partitions   int // network partitions into two groups (set or heal), messages across are lost
 	Reorders     int // fifo mode: deliveries of the second message of a channel before the first
 	MidCrashes   int
@@ -316,7 +318,7 @@ type cluster struct {
 	// budgets used
 	used struct {
 		timeouts, heartbeats, checkQuorums, leases, proposals, reads, confChanges, transfers,
-		snapshots, crashes, dups, drops, midCrashes, reports, reorders, partitions int
+		snapshots, crashes, dups, drops, midCrashes, reports, reorders, partitions, kills int
 	}
 	// monitors (history variables)
 	leaderOf    map[uint64]uint64     // term -> replica that became leader
@@ -506,7 +508,7 @@ func (c *cluster) warm() {
 	c.cfg = saved
 	c.used = struct {
 		timeouts, heartbeats, checkQuorums, leases, proposals, reads, confChanges, transfers,
-		snapshots, crashes, dups, drops, midCrashes, reports, reorders, partitions int
+		snapshots, crashes, dups, drops, midCrashes, reports, reorders, partitions, kills int
 	}{}
 }
 
@@ -582,6 +584,7 @@ const (
 	evStartJoiner
 	evPartition
 	evHeal
+	evKill
 )
 
 func mkev(kind int, a, b, cc uint32) uint32 { return uint32(kind)<<24 | a<<16 | b<<8 | cc }
@@ -632,6 +635,8 @@ func (c *cluster) describe(e uint32) string {
 		return fmt.Sprintf("Partition(groupA mask=%b)", a)
 	case evHeal:
 		return "HealPartition"
+	case evKill:
+		return fmt.Sprintf("Kill(%d)", a)
 	}
 	return fmt.Sprint(e)
 }
@@ -774,7 +779,7 @@ func (c *cluster) takeMsg(i int, keep bool) pb.Message {
 }
 
 func (c *cluster) live(r *replica) bool {
-	return r.started && (!r.stopped || c.cfg.KeepRemovedRunning)
+	return r.started && !r.dead && (!r.stopped || c.cfg.KeepRemovedRunning)
 }
 
 // scriptEvent translates a Script item into an event.
@@ -891,6 +896,9 @@ func (c *cluster) enabledAll() []uint32 {
 		}
 		if c.used.crashes < cfg.Crashes {
 			out = append(out, mkev(evCrash, id, 0, 0))
+		}
+		if c.used.kills < cfg.Kills {
+			out = append(out, mkev(evKill, id, 0, 0))
 		}
 	}
 	for _, r := range c.reps {
@@ -1323,6 +1331,9 @@ func (c *cluster) Step(e uint32) (msg string) {
 	case evHeal:
 		c.used.partitions++
 		c.partition = 0
+	case evKill:
+		c.used.kills++
+		c.byID[uint64(a)].dead = true
 	case evStartJoiner:
 		if j := c.byID[uint64(a)]; !j.started && !j.stopped && c.joinable(j) {
 			c.start(j)
